@@ -23,11 +23,15 @@ enum Call {
     Count,
     Lines,
     Slice(u32, u32, u32),
+    /// clone the shared view, then count the clone's lines
+    CloneCount,
 }
 
 fn parse_call(s: &str) -> Call {
     if s == "C" {
         Call::Count
+    } else if s == "K" {
+        Call::CloneCount
     } else if s == "N" {
         Call::Lines
     } else if let Some(n) = s.strip_prefix('L') {
@@ -67,7 +71,7 @@ fn rlines(text: &str) -> Vec<String> {
 fn expected(lines: &[String], c: &Call) -> String {
     match c {
         Call::Line(i) => format!("{:?}", lines.get(*i as usize).map(String::as_str)),
-        Call::Count => format!("{}", lines.len()),
+        Call::Count | Call::CloneCount => format!("{}", lines.len()),
         Call::Lines => format!("{:?}", lines.iter().map(String::as_str).collect::<Vec<_>>()),
         Call::Slice(l, c, n) => {
             // ASCII texts only in this harness
@@ -81,6 +85,7 @@ fn observe(v: &SourceView, c: &Call) -> String {
     match c {
         Call::Line(i) => format!("{:?}", v.get_line(*i)),
         Call::Count => format!("{}", v.line_count()),
+        Call::CloneCount => format!("{}", v.clone().line_count()),
         Call::Lines => format!("{:?}", v.lines().collect::<Vec<_>>()),
         Call::Slice(l, c, n) => format!("{:?}", v.get_line_slice(*l, *c, *n)),
     }
